@@ -93,7 +93,8 @@ pub use crate::decoding::VerifRingBuffer as RingBuffer;
 // ---------------------------------------------------------------------------------------------
 pub use crate::decoding::sequence_execution::verif_do_offset_history as do_offset_history;
 pub use crate::decoding::sequence_section_decoder::{
-    verif_lookup_ll_code as lookup_ll_code, verif_lookup_ml_code as lookup_ml_code,
+    verif_default_distributions as default_distributions, verif_lookup_ll_code as lookup_ll_code,
+    verif_lookup_ml_code as lookup_ml_code,
 };
 
 /// Encoder side serialisation helpers of `encoding::blocks::compressed`
